@@ -56,6 +56,9 @@ def stepStructural (cx : Ctx) (op : String) (args : List String) : Option MOut :
   let script (l ev : String) : Option (IterScript Nat) := do
     let l ← nat? l
     let ev ← parseEvents ev
+    -- a zero-sized element type has unbounded capacity: a claimed length the driver cannot materialise as spare cells is
+    -- left unmodelled (`M ?`); the oracle still judges the step
+    if cx.elem = .zst ∧ l > 100000 then none
     pure ⟨l, ev.map (·.map cx.v)⟩
   let finishRow (d : DrainRow Nat) (word fin : String) : Option MOut :=
     let steps := if word = "-" then [] else word.splitOn ","
